@@ -1028,7 +1028,16 @@ fn check_campaign(ctx: &mut Ctx, c: &Campaign) -> Res {
         return Ok(());
     }
     std::thread::sleep(Duration::from_millis(150));
-    for (i, r) in c.rounds.iter().enumerate() {
+    // every campaign starts with two full-house rounds: 64 concurrent clients of ONE protocol (deep batches of up to 64
+    // same-protocol requests per worker), classic then IETF
+    let mut rounds: Vec<Round> = vec![];
+    if c.rounds.len() >= 2 {
+        for mix in [0u8, 1] {
+            rounds.push(Round { workers: r0.workers, stats: r0.stats, clients: 64, mix, reqs: 40, think_us: 0, shared_nonces: false, batch_size: r0.batch_size });
+        }
+    }
+    rounds.extend(c.rounds.iter().cloned());
+    for (i, r) in rounds.iter().enumerate() {
         let mut r = r.clone();
         r.workers = r0.workers;
         run_round(ctx, &mut s, &r, i as u64)?;
@@ -1056,6 +1065,17 @@ pub fn run_c18(ctx: &mut Ctx) -> Vec<Violation> {
         check_campaign(ctx, c)
     }));
     out
+}
+
+/// C11's use of the same machinery: under bursts from many concurrent clients every classic reply must state a
+/// microsecond midpoint inside [request sent, reply received] (the clock is read when the batch is signed)
+pub fn c11_burst_part(ctx: &mut Ctx) -> Vec<Violation> {
+    let t = ctx.tier;
+    let plans: Vec<Campaign> = [(1u8, 2u8, 24u8), (1, 8, 48), (2, 1, 16), (4, 64, 64)]
+        .iter()
+        .map(|(workers, batch_size, clients)| Campaign { rounds: vec![Round { workers: *workers, stats: false, clients: *clients, mix: 0, reqs: t.pick(120, 600), think_us: 0, shared_nonces: false, batch_size: *batch_size }] })
+        .collect();
+    run_enum(ctx, "burst-real-binary", plans.len() as u64, |i| plans[i as usize].clone(), |ctx, c| check_campaign(ctx, c))
 }
 
 pub fn replay_c18(ctx: &mut Ctx, _sub: &str, case: &Value) -> Res {
